@@ -649,6 +649,15 @@ def crash_part(ctx, tabs, rng, n, scratch):
     for name, text, d in typed:
         reqs.append({"op": "load.packages", "dir": scratch, "files": [[name, text]], "workers": 2, "timeout_s": 15})
         meta.append((name, "type:" + d.split("=")[0], text))
+    # a valid definition followed by trailing data: the file as a whole is malformed and must be rejected
+    for k in range(12 if ctx.tier == "quick" else 60):
+        dto = G.gen_package(rng, faults=False)
+        js, ym = G.render_json(dto, rng), G.render_yaml(dto)
+        for name, text in (("BUILD.json", js + rng.choice(["x", " garbage", "\n{", "\n]", "\n\"", "\n}}", " ,", "\n{\"targets\": 3}", "\n@"])),
+                           ("BUILD.yaml", ym + rng.choice(["---\n[\n", "---\nfoo: [1,\n", "---\n\"unterminated\n", "---\n{a: b\n", "...\n---\n- ]\n"])),
+                           ("BUILD.yaml", js + rng.choice(["\n---\n}", "\n---\n[1,"]))):
+            reqs.append({"op": "load.packages", "dir": scratch, "files": [[name, text]], "workers": 2, "timeout_s": 15})
+            meta.append((name, "trailing-garbage", text))
     for _ in range(n):
         name = rng.choice(FORMATS + ["x.grog.sh"])
         if name == "x.grog.sh":
@@ -678,6 +687,10 @@ def crash_part(ctx, tabs, rng, n, scratch):
             fz["outcome_error"] += 1
         else:
             fz["outcome_loaded"] += 1
+            if kind == "trailing-garbage":
+                ctx.violation(f"{name}: a valid package definition followed by garbage loads without an error (the trailing data is silently ignored)",
+                              {"kind": "oracle", "oracle": "a malformed BUILD file yields an error", "file": name, "corruption": kind, "text": text, "impl": r},
+                              signature="trailing-data-ignored:" + ("json" if name == "BUILD.json" else "yaml"))
     # a Starlark program that does not terminate in any reasonable time (own driver process: the evaluation keeps running)
     runaway = "def f():\n    for a in range(1000000):\n        for b in range(1000000):\n            for c in range(1000000):\n                pass\nf()\n"
     r = G.run_resilient(ctx, [{"op": "load.packages", "dir": scratch, "files": [["BUILD.star", runaway]], "workers": 1, "timeout_s": 6}])[0]
@@ -718,6 +731,8 @@ def cli_part(ctx):
         return
     cases = [("valid", {"BUILD.json": '{"targets":[{"name":"a","command":"true"}]}'}, True),
              ("bad json", {"BUILD.json": '{"targets":[{"name":"a",'}, False),
+             ("json with trailing garbage", {"BUILD.json": '{"targets":[{"name":"a","command":"true"}]} }garbage'}, False),
+             ("yaml with a garbage second document", {"BUILD.yaml": "targets:\n- name: a\n  command: x\n---\n[1,\n"}, False),
              ("null entry", {"BUILD.json": '{"targets":[null]}'}, False),
              ("bad yaml", {"BUILD.yaml": "targets:\n  - name: [\n"}, False),
              ("yaml null entry", {"BUILD.yaml": "targets:\n- ~\n"}, False),
